@@ -227,10 +227,16 @@ CHECKS = {
             "C11_nonmember_refused (binding a node whose class is not a member of the union reference - or not the class of the plain "
             "reference - leaves the reference-graph state as it was; executed against the library's raise by the `bindbad` operations of "
             "the rg stream, also after the same class was stored through ANOTHER union). "
+            "Placement (model Place.decide of typeutils.allocate_on_buffer, executed against the library for all 448 combinations of "
+            "context / buffer / offset arguments x 4 entry points): C11_offset_without_buffer_refused (any explicit offset - 0 included - "
+            "without a buffer), C11_foreign_context_refused, C11_placement_refused_iff (these are the only refusals), "
+            "C11_placement_accepted (accepted requests go to the given buffer, else a new buffer of the given / default context; a "
+            "numeric offset leaves the allocator untouched). "
             "Known finding O-13 (non-atomic dict update of a nested struct) is "
             "listed in known_findings.json.",
-            "Partial: shape / length / context / offset refusals are decision logic compared by the tie (exception class and "
-            "buffer image at the raise), not theorems.",
+            "Partial: shape / length refusals of array updates and over-sized nested items are decision logic compared by the tie "
+            "(exception class and buffer image at the raise), not theorems; that a refused placement leaves every buffer unchanged is "
+            "an oracle on the library (the model's decision function has no state to change).",
             "7/C11"),
     "C08": ("Lean 4 proof: two's-complement relative-offset codec (encode/decode round trip over Int), null encodings, growth as prefix "
             "preservation, fresh placement = allocator theorem; executable heap model (several buffers/contexts, existing objects as "
